@@ -128,6 +128,66 @@ def head(e, fn, d=0):
     return k
 
 
+def ident_literals(P, f, e, depth=0):
+    """the string literals that can end up in the text handed to an identifier constructor (join separators, fixed pieces):
+    the arguments are expanded, pure in-crate helpers (single exit) are read through, and literals that only feed an error message
+    (context / with_context / expect) are left out"""
+    out = set()
+
+    def body(g):
+        # text built by side effects (push / push_str in a loop or fold): every literal of the body
+        for bi in g.normal_blocks():
+            for op in g.block_operands(bi):
+                if op.get('k') == 'Const' and 'str' in op:
+                    out.add(op['str'])
+                elif op.get('k') == 'Const' and op.get('ty') == 'char' and str(op.get('val', '')).isdigit():
+                    out.add(chr(int(op['val'])))
+
+    def go(x, fn, d):
+        if not isinstance(x, tuple) or not x:
+            return
+        if x[0] == 'int' and len(x) > 2 and x[2] == 'char':
+            out.add(chr(x[1]))
+            return
+        if x[0] == 'str':
+            out.add(x[1])
+            return
+        if x[0] == 'call':
+            if re.search(r'Context::(with_context|context)$|::(expect|unwrap_or_else)$', x[3] if len(x) > 3 else x[1]) or re.search(r'::(expect)$', x[1]):
+                if x[2]:
+                    go(x[2][0], fn, d)
+                return
+            g = P.fns.get(x[1])
+            if g is not None and d < 3 and not g.loops() and len(g.exits()) == 1:
+                go(subst_args(expand(g, g.exits()[0]['expr']), x[2]), g, d + 1)
+                return
+            if g is not None and d < 3:
+                body(g)
+            for a in x[2]:
+                go(a, fn, d)
+            return
+        if x[0] in ('closure', 'fnref') and x[1] in P.fns and d < 3:
+            g = P.fns[x[1]]
+            for ex in g.exits():
+                go(expand(g, ex['expr']), g, d + 1)
+            body(g)
+            if x[0] == 'closure':
+                for c_ in x[2]:
+                    go(c_, fn, d)
+            return
+        for y in x:
+            if isinstance(y, tuple):
+                go(y, fn, d)
+            elif isinstance(y, list):
+                for z in y:
+                    if isinstance(z, tuple) and len(z) == 2 and isinstance(z[0], str) and isinstance(z[1], tuple):
+                        go(z[1], fn, d)
+                    elif isinstance(z, tuple):
+                        go(z, fn, d)
+    go(expand(f, e), f, depth)
+    return sorted(out)
+
+
 def coarse_of(s):
     hs = []
     for i, o in enumerate(s['ops'][:2]):
@@ -630,8 +690,12 @@ def run(ctx):
         s['tcoarse'] = tcoarse_of(s) if s['kind'] in ('assert', 'intop') else None
         if s['kind'] == 'ident':
             fmt = [x for x in walk(('tuple', s['ops'])) if isinstance(x, tuple) and x and x[0] == 'const' and x[1].startswith('b"')]
-            key = '%s|format_ident(%s)' % (stable_id(s['fn'].id), fmt[0][1] if fmt else '?')
-            s['coarse'] = 'format_ident(%s)' % (fmt[0][1] if fmt else '?')
+            lits = ident_literals(P, s['fn'], ('tuple', s['ops']))
+            # the fixed text that goes into the identifier is part of the site's identity: a reviewed finding about one
+            # composition (`_`-joined segments) must not cover another (`.`-joined ones)
+            lit_s = ('|lits=' + ','.join(repr(x) for x in lits)) if lits else ''
+            key = '%s|format_ident(%s)%s' % (stable_id(s['fn'].id), fmt[0][1] if fmt else '?', lit_s)
+            s['coarse'] = 'format_ident(%s)%s' % (fmt[0][1] if fmt else '?', lit_s)
         n = seen.get(key, 0)
         seen[key] = n + 1
         s['okey'] = key if n == 0 else '%s#%d' % (key, n + 1)
